@@ -20,7 +20,7 @@ TRUSTED_BASE = [
 SML_PROOFS = ["SmlNumbers.v", "SmlProofs.v"]
 SML_DEEP = SML_PROOFS + ["LexProofs.v", "ParseProofs.v"]
 SML_LAYOUT = SML_DEEP + ["LayoutProofs.v", "FrameProofs.v", "OffsetProofs.v"]
-SML_CASE = ["PrintProofs.v", "LexPrinted.v", "CaseProofs.v"]
+SML_CASE = ["PrintProofs.v", "LexPrinted.v", "CaseProofs.v", "LexNames.v", "GapProofs.v"]
 AST_PROOFS = ["FloatProofs.v", "AstProofs.v", "FillProofs.v"]
 FILL_DEEP = ["FillCompose.v", "EllipsisProofs.v", "PrintProofs.v"]
 WIRE_PROOFS = ["HeaderProofs.v", "WireSpec.v", "WireLemmas.v", "WireValues.v", "WireEnc.v", "WireDec.v", "MsgProofs.v"]
@@ -91,7 +91,7 @@ PROPS = {
         rule="exhaustive grid: 14 item types x 4 declaration forms (+ a spaced form) x lower, upper, count in 0..5; overflowing bounds; ASCII variables: 5 declaration forms x bounds 0..4 x fill lengths 0..6",
     ),
     "C19": dict(
-        prop_file="props/C19.v", proof_files=WIRE_PROOFS + AST_PROOFS + ["FloatRound.v", "FillCompose.v", "PrintProofs.v"] + SML_LAYOUT + ["TokenProofs.v", "AsciiTokens.v", "TokenTrees.v", "LexPrinted.v", "AsciiLex.v", "LexTrees.v", "MsgRoundTrip.v"], tie_files=["TablesTie.v"],
+        prop_file="props/C19.v", proof_files=WIRE_PROOFS + AST_PROOFS + ["FloatRound.v", "FillCompose.v", "PrintProofs.v"] + SML_LAYOUT + ["TokenProofs.v", "AsciiTokens.v", "TokenTrees.v", "LexPrinted.v", "CaseProofs.v", "LexNames.v", "AsciiLex.v", "LexTrees.v", "MsgRoundTrip.v", "NameLex.v", "Converse.v"], tie_files=["TablesTie.v"],
         suites=["C19"],
         decisive=[],
     ),
